@@ -25,6 +25,7 @@ import Kust.Repl
 import Kust.FmtSchema
 import Kust.Match
 import Kust.ReplTree
+import Kust.PathDisk
 import Kust.Gen.Lists
 import Kust.Gen.FieldSpecs
 import Kust.Gen.Lists
@@ -603,6 +604,21 @@ def runMatch (op : String) (a : Json) : Except String Json := do
       (Match.pathMatch (MatchJ.hit ns) ns create path doc)
   | _ => throw s!"unknown match op {op}"
 
+def runPathDisk (a : Json) : Except String Json := do
+  let fs : PathDisk.Fs := (jArr (a.getObjValD "fs")).filterMap fun e => match jStrs e with
+    | [p, "dir", _] => some (Path.compsOf p, PathDisk.Ent.dir)
+    | [p, "file", c] => some (Path.compsOf p, PathDisk.Ent.file c)
+    | [p, "link", t] => some (Path.compsOf p, PathDisk.Ent.link t)
+    | _ => none
+  let ops : List PathDisk.Op := (jArr (a.getObjValD "ops")).filterMap fun e => match jStrs e with
+    | ["new", p] => some (.new p)
+    | ["load", p] => some (.load p)
+    | _ => none
+  let res := PathDisk.run fs [[]] ops
+  -- anything outside the model anywhere in the session makes the whole case unmodelled
+  if res.any (fun r => match r with | .err "unmodelled" => true | _ => false) then return Json.mkObj [("err", "unmodelled")]
+  return Json.mkObj [("ok", Json.arr (res.map (outToJson Json.str)).toArray)]
+
 def rtOptsOfJ (j : Json) : Option ReplTree.Opts :=
   if j.isNull then none else some ⟨jS j "delim", jInt (j.getObjValD "index"), jB j "create"⟩
 
@@ -634,6 +650,7 @@ def dispatch (comp : String) (args : Json) : Except String Json :=
   | ["image", op] => runImage op args
   | ["openapi", op] => runOpenApi op args
   | ["fieldspec", op] => runFieldSpec op args
+  | ["path", "disk"] => runPathDisk args
   | ["path", op] => runPath op args
   | ["kio", op] => runKio op args
   | ["fix", op] => runFix op args
